@@ -17,6 +17,7 @@
      go                                  get_outpoints()
      fk                                  keep a second object: other = tx.clone()      sw   swap tx and the other object
      new.<version>.<locktime> / def      continue with Transaction::new(..) / Transaction::default()
+     an.<k>.<sat|->.<lock|->             annotate input k (get_input, set_satoshis / set_locking_script, set_input); no input k: nothing
      pb.<bytes> / ph.<bytes>             continue with Transaction::from_bytes(bytes) / from_hex(hex of bytes) (any accepted encoding,
                                          e.g. non-minimal compact sizes)
      fb / fh / fj / fc                   continue with from_bytes(to_bytes()) / from_hex(to_hex()) / from_json_string(to_json_string())
@@ -48,7 +49,8 @@ Inductive xop :=
 | XSig (f idx : N) (sub : list bit) (v : N)
 | XSign (f idx : N) (sub : list bit) (v : N)
 | XIns (l : list txin) | XOuts (l : list txout) | XHashIn (f : N) | XGetOutpoints
-| XFork | XSwap | XNew (v lt : N) | XDefault | XReparse (kind : N) | XParse (b : bytes).
+| XFork | XSwap | XNew (v lt : N) | XDefault | XReparse (kind : N) | XParse (b : bytes)
+| XAnn (k : N) (sat : option N) (lock : option (list bit)).
 
 Definition parse_in (txid vo scr sq : string) : option txin :=
   match expand txid, N_of_dec vo, expand scr, N_of_dec sq with
@@ -97,6 +99,14 @@ Definition parse_op (s : string) : option xop :=
   | ["fh"] => Some (XReparse 1)
   | ["fj"] => Some (XReparse 2)
   | ["fc"] => Some (XReparse 3)
+  | ["an"; k; sat; lock] =>
+      match N_of_dec k,
+            (if String.eqb sat "-" then Some None else option_map Some (N_of_dec sat)),
+            (if String.eqb lock "-" then Some None
+             else match expand lock with Some lb => match from_bytes lb with Ok l => Some (Some l) | _ => None end | None => None end) with
+      | Some kn, Some so, Some lo => Some (XAnn kn so lo)
+      | _, _, _ => None
+      end
   | ["pb"; d] => option_map XParse (expand d)
   | ["ph"; d] => option_map XParse (expand d)
   | ["ai"; a; b; c; d] => option_map (XIn 0 0) (parse_in a b c d)
@@ -148,6 +158,16 @@ Definition to_op (s : state) (x : xop) : op :=
   | XOuts l => AddOutputs l
   | XHashIn f => HashInputsOp f
   | XGetOutpoints => GetOutpointsOp
+  | XAnn k sat lock =>
+      if (k <? N.of_nat (length (inputs t)))%N then
+        match nth_error (inputs t) (N.to_nat k) with
+        | Some i => SetInput (N.to_nat k)
+                      (mk_txin (prev_tx_id i) (vout i) (unlocking i) (sequence i)
+                               (match lock with Some l => Some l | None => locking i end)
+                               (match sat with Some v => Some v | None => satoshis i end))
+        | None => CloneOp
+        end
+      else CloneOp
   | XFork | XSwap | XNew _ _ | XDefault | XReparse _ | XParse _ => CloneOp     (* handled by `special` below *)
   end.
 
